@@ -418,23 +418,18 @@ pub fn gen_base(rng: &mut Rng, kind: &str, z: &Zone, n: u64, form_hint: u64) -> 
             prereqs.push((p, true));
             if n_pre > 1 {
                 let form2 = *rng.pick(&FORMS);
-                let want2 = rng.chance(3, 4);
+                let want2 = true;
                 if let Some((p2, _)) = gen_prereq_pair(rng, z, form2, want2, Some(&avoid)) {
                     let mut both = vec![prereqs[0].clone(), (p2.clone(), false)];
                     if rng.bool() {
                         both.swap(0, 1);
                     }
                     let all: Vec<Rr> = both.iter().flat_map(|(p, _)| p.rrs.clone()).collect();
-                    // keep the second one only if the twin zone still tells the message apart
-                    // whatever order the server evaluates in: it holds in both zones, or it comes
-                    // after the toggled one and fails with an rcode the toggled one cannot produce
+                    // keep the second one only if it holds in both zones: then the toggled one decides
+                    // the outcome whatever order the server evaluates in (RFC 2136 3.2.5 compares the
+                    // value dependent RRsets after all the others)
                     let holds_in_both = prerequisites(z, &p2.rrs).is_empty() && prerequisites(&b, &p2.rrs).is_empty();
-                    let fails_apart = both[0].1 && prerequisites(z, &p2.rrs) == prerequisites(&b, &p2.rrs) && {
-                        let mut t = prerequisites(z, &prereqs[0].0.rrs);
-                        t.extend(prerequisites(&b, &prereqs[0].0.rrs));
-                        prerequisites(z, &p2.rrs).is_disjoint(&t)
-                    };
-                    if prerequisites(z, &all) != prerequisites(&b, &all) && (holds_in_both || fails_apart) {
+                    if prerequisites(z, &all) != prerequisites(&b, &all) && holds_in_both {
                         prereqs = both;
                     }
                 }
